@@ -1,3 +1,9 @@
 // Pasted into swarm/src/connection/pool/dial_ranker.rs (mod verif) under cfg(kani).
 #[allow(unused_imports)]
 use super::*;
+
+pub(crate) mod c09 {
+    #[allow(unused_imports)]
+    use super::super::*;
+    include!(concat!(env!("LIBP2P_VERIF"), "/units/C09/ranker.rs"));
+}
